@@ -43,18 +43,24 @@ func execC07Ted(a []string) string {
 			return "inconsistent:unmarshal"
 		}
 		if err != nil {
-			return c07TedErr(err)
+			// a refused string whose ordinate is not canonical is reported as such whatever reason the library gives
+			// (the model tests canonicity first; both refuse)
+			if r := c07Err(err); r != "err:short" && len(buf) >= api.params().size {
+				P := api.params()
+				le := append([]byte{}, buf[:P.size]...)
+				for i, j := 0, P.size-1; i < j; i, j = i+1, j-1 {
+					le[i], le[j] = le[j], le[i]
+				}
+				le[0] &= 0x7f
+				if new(big.Int).SetBytes(le).Cmp(P.q) >= 0 {
+					return "err:noncanon"
+				}
+			}
+			return c07Err(err)
 		}
 		return fmt.Sprintf("ok %x;%x %x", x, y, n)
 	}
 	return "bad-op"
-}
-
-func c07TedErr(err error) string {
-	if r := c07Err(err); r != "err:other" {
-		return r
-	}
-	return "err:other"
 }
 
 func genC07Ted(g *gen) {
